@@ -110,13 +110,21 @@ def run(ck, prog, ctx):
     oi = prog.body("ontology::Ontology::iter")
     if oi is not None:
         ok = any(t.callee.res == ARENA + "::iter" for _, t in oi.calls())
-        ck.ob("TABLE", "ontology/iter", ok, "Ontology::iter %s" % ("iterates the arena's ids" if ok else "does not use Arena::iter"), where=oi.where())
+        if not ok and arena_fn(prog, "iter") is None and any((t.callee.res or "").startswith(ARENA + "::") for _, t in oi.calls()):
+            ck.undecided("TABLE", "ontology/iter", "Arena::iter (private) is gone; Ontology::iter walks the arena through %s" % sorted({t.callee.res.rsplit("::", 1)[-1] for _, t in oi.calls() if (t.callee.res or "").startswith(ARENA + "::")}), where=oi.where())
+        else:
+            ck.ob("TABLE", "ontology/iter", ok, "Ontology::iter %s" % ("iterates the arena's ids" if ok else "does not use Arena::iter"), where=oi.where())
 
     # ------------------------------------------------------------------ DOM: zero tests in get / get_mut / insert
     def is_slot(atoms):
         return "ids" in field_names(atoms, "Arena")
 
-    for name in ("get", "get_mut"):
+    # these rules are phrased over the representation `slot 0 = absent, terms[0] = placeholder`.  An arena that keeps no placeholder inside `terms`
+    # (Option<NonZero..> slots, a separate placeholder field) has no zero test to find: its private lookup is then not judged here
+    sentinel_repr = consts.get("default/pushes", 1) != 0
+    if not sentinel_repr:
+        ck.undecided("DOM", "representation", "the arena reserves no placeholder inside `terms` (another private representation of an absent id): the slot != 0 / slot == 0 rules do not apply")
+    for name in (("get", "get_mut") if sentinel_repr else ()):
         b = arena_fn(prog, name)
         if not ck.anchor("DOM", "Arena::" + name, b, private=True):
             continue
@@ -133,7 +141,7 @@ def run(ck, prog, ctx):
                   "Arena::%s hands out terms[slot] %s" % (name, "only on the slot != 0 edge" if ok else "without being dominated by a slot != 0 test: the placeholder term can be returned for an absent id"),
                   where=b.where(t.line))
     ins = arena_fn(prog, "insert")
-    if ck.anchor("DOM", "Arena::insert", ins, private=True):
+    if sentinel_repr and ck.anchor("DOM", "Arena::insert", ins, private=True):
         tests = zero_test_edges(ins, pv, is_slot)
         pushes = [(bi, t) for bi, t in ins.calls() if t.callee.method == "push" and "HpoTermInternal" in (t.callee.def_args or "")]
         writes = []
@@ -270,6 +278,32 @@ def run(ck, prog, ctx):
                 ck.ob("ROLE", "filter_new/unchanged", not steps, "OmimDiseaseFilter::new stores the query %s" % ("as given" if not steps else "after `%s`: names that do not contain the caller's query are returned" % ", ".join(steps)), where=new.where())
 
     # ---- the arena's id iterator answer each protocol method with the inner iterator's SAME method
+    # ------------------------------------------------------------------ TABLE: whoever walks `terms` leaves the placeholder out
+    # (not only the named accessors: a hand-written Clone / Extend / FromIterator of the arena that re-inserts `for term in &self.terms` turns the
+    # placeholder into a real term with id 0)
+    n_walk = 0
+    pvn = Prov(prog, inline=False, mutflow=False)
+    for b_ in prog.production():
+        if not (b_.id.startswith(ARENA + "::") or b_.id.startswith("<" + ARENA + " as ")) or b_.kind != "AssocFn":
+            continue
+        walks = []
+        for fb_ in prog.family(b_):
+            for bi, t in fb_.calls():
+                if t.callee.method in ("iter", "into_iter", "iter_mut", "drain") and t.args:
+                    at = pvn.of_operand(fb_, t.args[0])
+                    if "terms" in field_names(at, "Arena") and not any(a[0] == "call" and a[1].startswith(ARENA + "::") for a in at):
+                        walks.append(t)
+        if not walks:
+            continue
+        n_walk += 1
+        k = arena_placeholder_skips(prog, b_)
+        ref_ = consts.get("default/pushes")
+        if k is None or ref_ is None:
+            ck.undecided("TABLE", "walk/" + b_.short, "%s iterates `terms`; how many leading slots it leaves out is not recognised" % b_.short, where=b_.where(walks[0].line))
+        else:
+            ck.ob("TABLE", "walk/" + b_.short, k == ref_, "%s iterates `terms` leaving out %d leading slot(s) (the arena reserves %d placeholder)%s" % (b_.short, k, ref_, "" if k == ref_ else ": the placeholder is treated as a term"), where=b_.where(walks[0].line))
+    ck.extra["arena functions that iterate `terms` directly"] = n_walk
+
     # ------------------------------------------------------------------ TABLE: slot numbers are not narrowed
     # the arena may hold one term per id of the 7-digit id space (10^7 slots): a slot number needs 24 bits.  An `as` cast of a slot number to
     # a narrower integer wraps silently: later ids resolve to the placeholder or to ANOTHER term.
